@@ -87,9 +87,12 @@ def gen(rng, tier):
                               rng.choice(NSS[:2]), 'B%d' % tok,
                               rng.choice([None, 1, 7, 0]),
                               rng.random() < 0.4])
-            elif k < 0.85:
+            elif k < 0.83:
                 burst.append(['room_emit', rng.choice(NSS[:2]), 'R%d' % tok])
-            elif k < 0.93:
+            elif k < 0.87:
+                # an emit with a callback to a room the offender is in too
+                burst.append(['room_cb', '/', 'Q%d' % tok])
+            elif k < 0.94:
                 burst.append(['cb_emit', rng.randrange(cfg['nby']),
                               rng.choice(NSS[:2]), 'G%d' % tok])
             else:
@@ -228,6 +231,8 @@ def _run(case, cfg, w):
         s = sc.connect('off', ns)
         if s:
             off_sids.add(s)
+            if ns == '/':
+                srv_call(w, 'enter_room', s, 'lobby', namespace=ns)
     w.settle()
     for pe in w.peers:
         for r in pe.rx:
@@ -245,6 +250,17 @@ def _run(case, cfg, w):
     mem_on = cfg['mem']
     if mem_on:
         tracemalloc.start()
+
+    room_ops = []
+    room_cb_expected = {}
+    room_cb_log = []
+    off_text = []
+
+    def make_room_cb(tag):
+        def cb(*args):
+            w.rec.add('room_cb', tag=tag, args=args)
+            room_cb_log.append((tag, list(args)))
+        return cb
 
     def make_cb(tag):
         def cb(*args):
@@ -332,7 +348,11 @@ def _run(case, cfg, w):
                     off.sever(0.0)
                     w.settle()
                 off = sc.open('off')
-                sc.connect('off', '/')
+                s_ = sc.connect('off', '/')
+                if s_:
+                    srv_call(w, 'enter_room', s_, 'lobby', namespace='/')
+                    for r in off.rx:
+                        r['absorbed'] = True
                 tainted[0] = False
                 rejected_only = False
             elif k == 'off':
@@ -357,6 +377,7 @@ def _run(case, cfg, w):
                         # packet, so the "undecodable input" clause makes no
                         # claim until the offender opens a new transport
                         tainted[0] = True
+                off_text.extend(f for f in frames if isinstance(f, str))
                 if sc.alive('off'):
                     off.send_frames(frames)
             elif k == 'by_event':
@@ -375,6 +396,14 @@ def _run(case, cfg, w):
                 for b in range(nby):
                     expected_rx[b].append(pkt_key(sio.Pkt(
                         sio.EVENT, ns, None, ['news', tag])))
+            elif k == 'room_cb':
+                _, ns, tag = o
+                h = w.api('s', 'emit', 'q', tag, to='lobby', namespace=ns,
+                          callback=make_room_cb(tag))
+                room_ops.append((tag, h))
+                for b in range(nby):
+                    expected_rx[b].append(('EVENT', ns, 'ANYID', trepr(
+                        ['q', tag])))
             elif k == 'cb_emit':
                 _, b, ns, tag = o
                 sid = by_sids[(b, ns)]
@@ -387,8 +416,15 @@ def _run(case, cfg, w):
                 lst = outstanding.get(b, [])
                 if lst and sc.alive(b):
                     ns, id_, tag = lst.pop(0)
-                    sc.peers[b].send_pkt(sio.ACK, ns, id_, [tag, 'done'])
-                    cb_expected[tag] = [tag, 'done']
+                    if tag.startswith('Q'):
+                        # room callback: one invocation per acknowledging
+                        # member, told apart by the payload
+                        key = '%s/by%d' % (tag, b)
+                        sc.peers[b].send_pkt(sio.ACK, ns, id_, [key, 'done'])
+                        room_cb_expected[key] = [key, 'done']
+                    else:
+                        sc.peers[b].send_pkt(sio.ACK, ns, id_, [tag, 'done'])
+                        cb_expected[tag] = [tag, 'done']
         w.settle()
         learn_ids(mark)
         if mem_on and off_bytes:
@@ -509,6 +545,20 @@ def _run(case, cfg, w):
         if fired.get(tag, 0) != 1:
             v.add('bystander_callback_count', '%s fired %d times'
                   % (tag, fired.get(tag, 0)))
+    # room emits with a callback: the offender is a legitimate recipient and
+    # may acknowledge too (with anything); what is claimed is that the emit
+    # does not fail and every bystander's acknowledgement still arrives once
+    for tag, h in room_ops:
+        if h.exc is not None:
+            v.add('room_emit_with_callback_raised', '%s: %r' % (tag, h.exc),
+                  type(h.exc).__name__)
+    for key, want in room_cb_expected.items():
+        n = sum(1 for t, a in room_cb_log if typed_eq(a, want))
+        if any(key in f for f in off_text):
+            continue
+        if n != 1:
+            v.add('bystander_room_callback_count', '%s fired %d times'
+                  % (key, n), 'got%d' % min(n, 2))
     return {'violations': v.items, 'digest': w.rec.digest.hex(),
             'nontrivial': nontrivial, 'stats': {'frames': stats},
             'sim_time': w.now() - 1_700_000_000.0,
